@@ -1,6 +1,6 @@
 (* C06 — Complement accepts exactly the trees over the alphabet that the automaton rejects. Statements only. *)
 From Coq Require Import List NArith Bool.
-From V Require Import Sem Prod Incl TrimDefs Lang ComplDefs ComplProofs.
+From V Require Import Sem Prod Incl TrimDefs Lang ComplDefs ComplProofs ComplModel.
 
 (* the gate evaluated on libvata's result C decides: over Sigma every tree is accepted by A or C, never by both,
    and C accepts no tree that is not over Sigma *)
@@ -16,7 +16,25 @@ Proof. intros S A C H. apply compl_gate_spec in H. apply H. Qed.
 Theorem C06_univ : forall S t, accepts (univ S) t <-> over S t.
 Proof. exact univ_accepts. Qed.
 
+(* the construction of ExplicitDownwardComplementation::Compute (one rule per choice function over the rules of a
+   macro-state, empty macro-states for W = [], leaf rules only for W = []) as a top-down run relation over macro-states:
+   a macro-state P accepts t exactly when t is over Sigma and no state of P accepts t in A *)
+Theorem C06_construction_macro_spec : forall S A, ranked S A = true -> sigma_fun S ->
+  forall t P, crun S A t P <-> (over S t /\ forall q, In q P -> ~ reach A t q).
+Proof. exact macro_spec. Qed.
+(* ... so from the root macro-state (the final states of A) it accepts exactly the trees over Sigma that A rejects *)
+Theorem C06_construction_exact : forall S A, ranked S A = true -> sigma_fun S ->
+  forall t, crun S A t (finals A) <-> (over S t /\ ~ accepts A t).
+Proof. exact compl_exact. Qed.
+(* macro-states are sets (sorting / hashing them is sound) *)
+Theorem C06_construction_set_ext : forall S A, ranked S A = true -> sigma_fun S ->
+  forall t P P', (forall q, In q P <-> In q P') -> (crun S A t P <-> crun S A t P').
+Proof. exact crun_set_ext. Qed.
+
 Print Assumptions C06_gate.
+Print Assumptions C06_construction_macro_spec.
+Print Assumptions C06_construction_exact.
+Print Assumptions C06_construction_set_ext.
 Print Assumptions C06_exact.
 Print Assumptions C06_alphabet.
 Print Assumptions C06_univ.
